@@ -1325,6 +1325,81 @@ theorem commit_ok (g γ : F) (β : List F) (ts : List Term) (nv s D : Nat)
     simp only [hrc]
     exact ⟨_, rfl⟩
 
+/-! ### trimming a well-formed universal key -/
+
+/-- The universal parameters `setup` publishes for the trapdoor `β⃗` over the monomials `ts`. -/
+def wfUP (g γ h : F) (β : List F) (ts : List Term) (nv D : Nat) : UParams F :=
+  { powersOfG := ts.map (fun t => (t, g * evalTerm t β))
+    gammaG := γ
+    powersOfGammaG := (List.range nv).map (fun i => gammaRow γ (getD' β i 0) (D + 1) 1)
+    h := h
+    betaH := β.map (fun b => h * b)
+    numVars := nv
+    maxDegree := D }
+
+theorem gammaRow_take (γ β : F) (k n : Nat) (cur : F) (h : k ≤ n) :
+    (gammaRow γ β n cur).take k = gammaRow γ β k cur := by
+  induction k generalizing n cur with
+  | zero => simp [gammaRow]
+  | succ k ih =>
+    cases n with
+    | zero => omega
+    | succ n => simp only [gammaRow, List.take_succ_cons, ih n _ (by omega)]
+
+theorem trimRows_wf (γ : F) (β : List F) (s D : Nat) (hs : s ≤ D) (l : List Nat) :
+    trimRows s (l.map (fun i => gammaRow γ (getD' β i 0) (D + 1) 1))
+      = .ok (l.map (fun i => gammaRow γ (getD' β i 0) (s + 1) 1)) := by
+  induction l with
+  | nil => rfl
+  | cons a l ih =>
+    simp only [List.map_cons, trimRows, gammaRow_length, ih]
+    rw [if_neg (by omega), gammaRow_take _ _ _ _ _ (by omega)]
+
+theorem trimPowers_wf (g : F) (β : List F) (ts : List Term) (s : Nat) :
+    trimPowers s (ts.map (fun t => (t, g * evalTerm t β)))
+      = (ts.filter (fun t => decide (Term.degree t ≤ s))).map (fun t => (t, g * evalTerm t β)) := by
+  induction ts with
+  | nil => rfl
+  | cons a ts ih =>
+    unfold trimPowers at ih ⊢
+    simp only [List.map_cons, List.filter_cons]
+    by_cases ha : Term.degree a ≤ s
+    · simp only [ha, decide_true, if_true, List.map_cons, ih]
+    · simp only [ha, decide_false, Bool.false_eq_true, if_false, ih]
+
+/-- **Trim of a well-formed key** is the well-formed committer key over exactly the monomials of
+degree `≤ s` (with `s + 1` γ-powers per variable), and the matching verifier key. -/
+theorem trim_wfUP (g γ h : F) (β : List F) (ts : List Term) (nv D s : Nat) (hs : s ≤ D)
+    (h0 : [] ∈ ts) :
+    trim (wfUP g γ h β ts nv D) s
+      = .ok (wfCK g γ β (ts.filter (fun t => decide (Term.degree t ≤ s))) nv s D (s + 1),
+             wfVK g γ h β nv s D) := by
+  have hnew : Term.new [] = [] := rfl
+  have hgt : ¬ s > D := by omega
+  unfold trim
+  simp only [wfUP, hgt, if_false, trimRows_wf γ β s D hs, hnew,
+    mapGet_map_of_mem (fun t => g * evalTerm t β) ts [] h0, trimPowers_wf]
+  simp [wfCK, wfVK]
+
+theorem commit_none (ck : CK F) (p : MVPoly F) (rng : Bool) (draws : List F) (c : F) (r : MVPoly F)
+    (rest : List F) (h : commit ck p none rng draws = .ok (c, r, rest)) : r = [] ∧ rest = draws := by
+  unfold commit at h
+  split at h
+  · cases h
+  · split at h
+    · cases h
+    · simp only at h
+      injection h with h; injection h with h1 h2; injection h2 with h2 h3
+      exact ⟨h2.symm, h3.symm⟩
+
+/-- what a committer key must contain is what the trimmed specification list contains -/
+theorem covered_mem_filter (nv s : Nat) (ts : List Term)
+    (hts : ∀ t, Covered nv s t → t ∈ ts) :
+    ∀ t, Covered nv s t → t ∈ ts.filter (fun t => decide (Term.degree t ≤ s)) := by
+  intro t ht
+  simp only [List.mem_filter, decide_eq_true_eq]
+  exact ⟨hts t ht, ht.2.2⟩
+
 end Keys
 
 end PST
